@@ -482,7 +482,7 @@ func ruleEofData(c *Ctx) {
 			counted := map[ssa.Value]bool{}
 			for _, cd := range conds {
 				b, isb := cd.V.(*ssa.BinOp)
-				if !isb || !cd.Sense || b.Op != token.EQL {
+				if !isb || !eqHolds(b, cd) {
 					continue
 				}
 				if k, isk := constInt(b.Y); !isk || k != 0 {
